@@ -115,12 +115,6 @@ Proof.
   split; [congruence|]. intro j. rewrite Hn'. apply Hn.
 Qed.
 
-(* what is known about position j once the loop has passed it *)
-Definition assigned_by_writer (objs0 objs : list sib) (j : nat) : Prop :=
-  exists e r, nth_error objs0 j = Some e /\ s_ident e = None /\
-    make_valid (fuel_for objs0) j (firstn j objs ++ skipn j objs0) (s_name e) = Ok r /\
-    nth_error objs j = Some (mkSib (s_name e) (Some r) (if str_eqb r (s_name e) then s_rename e else true)).
-
 (* every sibling ends up with an identifier; the writer's ones are [made], flagged as renames
    exactly when they differ from the name, and their lower-casing differs from every other
    sibling's name *)
@@ -132,7 +126,9 @@ Definition post_at (objs0 out : list sib) (j : nat) : Prop :=
       | Some v => nth_error out j = Some e
       | None => exists r, nth_error out j = Some (mkSib (s_name e) (Some r) (if str_eqb r (s_name e) then s_rename e else true)) /\
                           made r /\
-                          (forall j' n, j' <> j -> name_at objs0 j' = Some n -> n <> lower r)
+                          (exists objs', length objs' = length objs0 /\
+                                         make_valid (fuel_for objs') j objs' (s_name e) = Ok r) /\
+                          (forall j' n, j' <> j -> name_at objs0 j' = Some n -> lower n <> lower r)
       end
   end.
 
@@ -140,28 +136,31 @@ Theorem assign_all_post objs out : assign_all objs = Ok out -> forall j, post_at
 Proof.
   intro H. pose proof (assign_all_names _ _ H) as [_ Hnames]. unfold assign_all in H.
   apply (assign_from_inv (fun k o =>
+          length o = length objs /\
           (forall j, name_at o j = name_at objs j) /\
           (forall j, k <= j -> nth_error o j = nth_error objs j) /\
           (forall j, j < k -> post_at objs o j))) in H.
-  - destruct H as (_ & _ & H). intro j. destruct (Nat.lt_ge_cases j (length objs)) as [Hj|Hj].
+  - destruct H as (_ & _ & _ & H). intro j. destruct (Nat.lt_ge_cases j (length objs)) as [Hj|Hj].
     + apply H. lia.
     + unfold post_at. apply nth_error_None in Hj. rewrite Hj. exact I.
-  - intros k o o' (Hn & Hge & Hlt) Hs. destruct (add_rename_property_spec _ _ _ Hs) as (_ & Hn' & Hoth & Hk).
-    split; [intro j; rewrite Hn'; apply Hn|]. split.
+  - intros k o o' (Hlen & Hn & Hge & Hlt) Hs. destruct (add_rename_property_spec _ _ _ Hs) as (Hlen' & Hn' & Hoth & Hk).
+    split; [congruence|]. split; [intro j; rewrite Hn'; apply Hn|]. split.
     + intros j Hj. rewrite Hoth by lia. apply Hge. lia.
     + intros j Hj. destruct (Nat.eq_dec j k) as [->|Hne].
       * unfold post_at. rewrite (Hge k (le_n k)) in Hk. destruct (nth_error objs k) as [e|] eqn:En; [|exact I].
         destruct (s_ident e) as [v|] eqn:Ei.
         -- subst o'. rewrite (Hge k (le_n k)). exact En.
         -- destruct Hk as (r & Hm & Hr). exists r. split; [exact Hr|]. split; [eapply make_valid_made; exact Hm|].
+           split; [exists o; split; [exact Hlen|exact Hm]|].
            intros j' n Hj' Hnm. unfold make_valid in Hm.
            destruct (characters_fix (length_fix (s_name e))) as [c|]; [|discriminate].
            apply conflicts_fix_post in Hm. rewrite <- Hn in Hnm. unfold name_at in Hnm.
            destruct (nth_error o j') as [e'|] eqn:Ej'; [|discriminate]. inversion Hnm; subst n.
-           apply (conflicts_good_true _ _ _ Hm e'). eapply others_In; eauto.
+           destruct (conflicts_good_true _ _ _ Hm e') as [G _]; [eapply others_In; eauto|].
+           rewrite lower_idem in G. exact G.
       * assert (Hlt' : j < k) by lia. specialize (Hlt j Hlt'). unfold post_at in *.
         destruct (nth_error objs j) as [e|]; [|exact I]. rewrite (Hoth j Hne). exact Hlt.
-  - split; [intro; reflexivity|]. split; [intros; reflexivity|intros j Hj; lia].
+  - split; [reflexivity|]. split; [intro; reflexivity|]. split; [intros; reflexivity|intros j Hj; lia].
 Qed.
 
 Theorem assign_all_assigned objs out j :
@@ -174,51 +173,36 @@ Proof.
   - destruct P as (r & -> & _). exists r. reflexivity.
 Qed.
 
-(* (c), the part that holds: no upper-case letters in the scope => pairwise different identifiers *)
-Definition scope_no_upper (objs : list sib) : Prop :=
-  forall j e, nth_error objs j = Some e ->
-    no_upper (s_name e) /\ match s_ident e with Some v => no_upper v | None => True end.
-
+(* (c): identifiers end up pairwise different ignoring case - for every scope, any names, any
+   lengths (the comparison is made on the value that is finally returned, so truncation cannot
+   re-introduce a collision); pre-assigned identifiers must of course differ among themselves *)
 Definition idents_pairwise (R : str -> str -> Prop) (objs : list sib) : Prop :=
   forall j1 j2 v1 v2, j1 <> j2 -> ident_at objs j1 = Some v1 -> ident_at objs j2 = Some v2 -> R v1 v2.
 
-Theorem assign_all_distinct_no_upper objs out :
-  scope_no_upper objs -> idents_pairwise (fun a b => a <> b) objs ->
+Theorem assign_all_distinct objs out :
+  idents_pairwise (fun a b => lower a <> lower b) objs ->
   assign_all objs = Ok out ->
   idents_pairwise (fun a b => lower a <> lower b) out.
 Proof.
-  intros Hnu Hd H. unfold assign_all in H.
-  apply (assign_from_inv (fun _ o => scope_no_upper o /\ idents_pairwise (fun a b => a <> b) o)) in H.
-  - destruct H as [Hnu' Hd']. intros j1 j2 v1 v2 Hne H1 H2.
-    assert (N1 : no_upper v1).
-    { unfold ident_at in H1. destruct (nth_error out j1) as [e|] eqn:E; [|discriminate].
-      destruct (Hnu' _ _ E) as [_ G]. rewrite H1 in G. exact G. }
-    assert (N2 : no_upper v2).
-    { unfold ident_at in H2. destruct (nth_error out j2) as [e|] eqn:E; [|discriminate].
-      destruct (Hnu' _ _ E) as [_ G]. rewrite H2 in G. exact G. }
-    rewrite (no_upper_lower_id _ N1), (no_upper_lower_id _ N2). eapply Hd'; eauto.
-  - intros k o o' [Hnu' Hd'] Hs. destruct (add_rename_property_spec _ _ _ Hs) as (_ & _ & Hoth & Hk).
-    destruct (nth_error o k) as [e|] eqn:En; [|subst; split; assumption].
-    destruct (s_ident e) as [v|] eqn:Ei; [subst; split; assumption|].
-    destruct Hk as (r & Hm & Hr). destruct (Hnu' _ _ En) as [Hne _].
-    pose proof (make_valid_no_upper _ _ _ _ _ Hne Hm) as Hrn.
-    assert (Hfree : forall j e', j <> k -> nth_error o j = Some e' -> s_ident e' <> Some r).
-    { intros j e' Hj He'. unfold make_valid in Hm.
-      destruct (characters_fix (length_fix (s_name e))) as [c|]; [|discriminate].
-      apply conflicts_fix_post in Hm. rewrite (no_upper_lower_id _ Hrn) in Hm.
-      apply (conflicts_good_true _ _ _ Hm e'). eapply others_In; eauto. }
-    split.
-    + intros j e' He'. destruct (Nat.eq_dec j k) as [->|Hj].
-      * rewrite Hr in He'. inversion He'; subst e'. cbn. split; [exact Hne|exact Hrn].
-      * rewrite (Hoth j Hj) in He'. apply (Hnu' _ _ He').
-    + intros j1 j2 v1 v2 Hj H1 H2. unfold ident_at in H1, H2.
-      destruct (Nat.eq_dec j1 k) as [->|Hj1]; destruct (Nat.eq_dec j2 k) as [->|Hj2]; [congruence| | |].
-      * rewrite Hr in H1. cbn in H1. inversion H1; subst v1. rewrite (Hoth j2 Hj2) in H2.
-        destruct (nth_error o j2) as [e2|] eqn:E2; [|discriminate]. intro E. subst v2.
-        apply (Hfree j2 e2 Hj2 E2). exact H2.
-      * rewrite Hr in H2. cbn in H2. inversion H2; subst v2. rewrite (Hoth j1 Hj1) in H1.
-        destruct (nth_error o j1) as [e1|] eqn:E1; [|discriminate]. intro E. subst v1.
-        apply (Hfree j1 e1 Hj1 E1). exact H1.
-      * rewrite (Hoth j1 Hj1) in H1. rewrite (Hoth j2 Hj2) in H2. eapply (Hd' j1 j2); eauto.
-  - split; assumption.
+  intros Hd H. unfold assign_all in H.
+  apply (assign_from_inv (fun _ o => idents_pairwise (fun a b => lower a <> lower b) o)) in H; [exact H| |exact Hd].
+  intros k o o' Hd' Hs. destruct (add_rename_property_spec _ _ _ Hs) as (_ & _ & Hoth & Hk).
+  destruct (nth_error o k) as [e|] eqn:En; [|subst; assumption].
+  destruct (s_ident e) as [v|] eqn:Ei; [subst; assumption|].
+  destruct Hk as (r & Hm & Hr).
+  assert (Hfree : forall j e' v', j <> k -> nth_error o j = Some e' -> s_ident e' = Some v' -> lower v' <> lower r).
+  { intros j e' v' Hj He' Hv'. unfold make_valid in Hm.
+    destruct (characters_fix (length_fix (s_name e))) as [c|]; [|discriminate].
+    apply conflicts_fix_post in Hm.
+    destruct (conflicts_good_true _ _ _ Hm e') as [_ G]; [eapply others_In; eauto|].
+    specialize (G _ Hv'). rewrite lower_idem in G. exact G. }
+  intros j1 j2 v1 v2 Hj H1 H2. unfold ident_at in H1, H2.
+  destruct (Nat.eq_dec j1 k) as [->|Hj1]; destruct (Nat.eq_dec j2 k) as [->|Hj2]; [congruence| | |].
+  - rewrite Hr in H1. cbn in H1. inversion H1; subst v1. rewrite (Hoth j2 Hj2) in H2.
+    destruct (nth_error o j2) as [e2|] eqn:E2; [|discriminate]. intro E. symmetry in E.
+    exact (Hfree j2 e2 v2 Hj2 E2 H2 E).
+  - rewrite Hr in H2. cbn in H2. inversion H2; subst v2. rewrite (Hoth j1 Hj1) in H1.
+    destruct (nth_error o j1) as [e1|] eqn:E1; [|discriminate]. intro E.
+    exact (Hfree j1 e1 v1 Hj1 E1 H1 E).
+  - rewrite (Hoth j1 Hj1) in H1. rewrite (Hoth j2 Hj2) in H2. eapply (Hd' j1 j2); eauto.
 Qed.
